@@ -311,6 +311,12 @@ func (w *worker) runPath(it *WorkItem) {
 			case abortPanic:
 				outcome = "inconclusive"
 				detail = r.reason
+				if strings.HasPrefix(r.reason, "deadlock:") {
+					// every goroutine of the code under test is blocked for good: the call never
+					// returns. Reported as a violation (tag "hang") and, like every violation,
+					// only believed once the native replay hangs too.
+					outcome = "hang"
+				}
 			case targetPanic:
 				outcome = "panic"
 				detail = m.panicString(r.v)
@@ -328,8 +334,8 @@ func (w *worker) runPath(it *WorkItem) {
 		m.ensureInit(ex.Fn.Pkg)
 		m.callSSA(nil, ex.Fn, nil, nil)
 	}()
-	if outcome == "panic" {
-		// An unrecovered panic is a failed implicit assertion.
+	if outcome == "panic" || outcome == "hang" {
+		// An unrecovered panic (a call that never returns) is a failed implicit assertion.
 		func() {
 			defer func() {
 				if r := recover(); r != nil {
@@ -338,7 +344,7 @@ func (w *worker) runPath(it *WorkItem) {
 					}
 				}
 			}()
-			x.assertCore(m, m.C.False, "panic", detail)
+			x.assertCore(m, m.C.False, outcome, detail)
 		}()
 	}
 	m.teardown()
